@@ -2012,3 +2012,96 @@ B("r19-get-next-for-single-point", ["C13"], ["R19"],
    "        if timepoint is None:\n"
    "            return None\n"
    "        next_timepoint = timepoint + self._duration"))
+
+
+# ===================================================== round-9 rules =======
+B("r80-seconds-rounded-after-carry", ["C06"], ["R80"],
+  ("data", "            self._second_of_minute = seconds\n",
+   "            self._second_of_minute = round(seconds, 6)\n"), canary=True)
+B("r80-tolerance-in-dump-format", ["C08"], ["R80"],
+  ("data", "    return reference_timepoint + Duration(seconds=float(num_seconds))",
+   "    if abs(float(num_seconds)) < 1e-9:\n"
+   "        num_seconds = 0\n"
+   "    return reference_timepoint + Duration(seconds=float(num_seconds))"))
+B("r39-week-count-clamped", ["C03"], ["R39"],
+  ("data", "    return diff_days // CALENDAR.DAYS_IN_WEEK\n",
+   "    return max(diff_days // CALENDAR.DAYS_IN_WEEK,\n"
+   "               CALENDAR.MAX_WEEKS_IN_YEAR - 1)\n"), canary=True)
+K("r39-week-count-through-a-local",
+  ("data", "    return diff_days // CALENDAR.DAYS_IN_WEEK\n",
+   "    num_weeks = diff_days // CALENDAR.DAYS_IN_WEEK\n"
+   "    return num_weeks\n"))
+B("r08-duration-sub-borrows", ["C11"], ["R08"],
+  ("data", "    def __sub__(self, other):\n        return self + -1 * other\n\n"
+           "    def __mul__(self, other):",
+   "    def __sub__(self, other):\n"
+   "        new = self + -1 * other\n"
+   "        if new._months is not None and new._months < 0 < new._years:\n"
+   "            new._years -= 1\n"
+   "            new._months += CALENDAR.MONTHS_IN_YEAR\n"
+   "        return new\n\n"
+   "    def __mul__(self, other):"), canary=True)
+K("r08-duration-sub-through-a-local",
+  ("data", "    def __sub__(self, other):\n        return self + -1 * other\n\n"
+           "    def __mul__(self, other):",
+   "    def __sub__(self, other):\n"
+   "        difference = self + -1 * other\n"
+   "        return difference\n\n"
+   "    def __mul__(self, other):"))
+B("r08-months-stepped-in-utc", ["C05"], ["R08"],
+  ("data", "            new = new.add_months(duration._months)",
+   "            new = new.to_utc().add_months(\n"
+   "                duration._months).to_time_zone(new._time_zone)"),
+  canary=True)
+B("r38-minutes-signed-by-hour-value", ["C07"], ["R38"],
+  ("parsers", "        self.assumed_time_zone = assumed_time_zone",
+   "        if assumed_time_zone is not None:\n"
+   "            hours, minutes = assumed_time_zone\n"
+   "            if hours < 0:\n"
+   "                minutes = -abs(minutes)\n"
+   "            assumed_time_zone = (hours, minutes)\n"
+   "        self.assumed_time_zone = assumed_time_zone"), canary=True)
+B("r20-int-of-parsed-float", ["C09"], ["R20"],
+  ("parsers", "                    if \",\" in value:\n"
+              "                        value = value.replace(\",\", \".\")\n"
+              "                    value = float(value)",
+   "                    if \",\" in value:\n"
+   "                        value = value.replace(\",\", \".\")\n"
+   "                    value = float(value)\n"
+   "                    if value == int(value):\n"
+   "                        value = int(value)"))
+B("r44-epoch-count-corrected", ["C18"], ["R44"],
+  ("data", "        return str(int(CALENDAR.SECONDS_IN_DAY * days + seconds))",
+   "        total = CALENDAR.SECONDS_IN_DAY * days + seconds\n"
+   "        if total < 0:\n"
+   "            total -= 1\n"
+   "        return str(int(total))"), canary=True)
+K("r44-epoch-count-through-a-local",
+  ("data", "        return str(int(CALENDAR.SECONDS_IN_DAY * days + seconds))",
+   "        total = seconds + days * CALENDAR.SECONDS_IN_DAY\n"
+   "        return str(int(total))"))
+B("r26-designator-table-skipped", ["C10"], ["R26"],
+  ("parsers", "        for rec_regex in self.DURATION_REGEXES:",
+   "        regexes = self.DURATION_REGEXES\n"
+   "        if expression[1:5].isdigit():\n"
+   "            regexes = ()\n"
+   "        for rec_regex in regexes:"))
+B("r01-zone-of-result-written-in-place", ["C16"], ["R01"],
+  ("data", "        new._time_zone = dest_time_zone\n        return new",
+   "        new._time_zone = dest_time_zone\n"
+   "        if new._time_zone._hours * new._time_zone._minutes < 0:\n"
+   "            new._time_zone._minutes = -new._time_zone._minutes\n"
+   "        return new"), canary=True)
+B("r39-year-skip-by-common-length", ["C18"], ["R39"],
+  ("data", "                    while num_days != self._day_of_month:\n"
+           "                        start_year += 1\n",
+   "                    while num_days != self._day_of_month:\n"
+   "                        start_year += 1\n"
+   "                        if (self._day_of_month - num_days >\n"
+   "                                CALENDAR.DAYS_IN_YEAR):\n"
+   "                            num_days += get_days_in_year(start_year)\n"
+   "                            continue\n"))
+B("r30-offsets-split-at-comma", ["C19"], ["R30"],
+  ("main", "        args.offsets1 = [item.replace(\"\\\\\", \"\") for item in args.offsets1]",
+   "        args.offsets1 = [part for item in args.offsets1\n"
+   "                         for part in item.replace(\"\\\\\", \"\").split(\",\")]"))
